@@ -172,6 +172,51 @@ Definition plaintext_of (x : blob) : bytes :=
   | _ => []
   end.
 
+(** * Stream exits when a close lands between read and seal
+
+    [exit.Handler.readLoop], [forward.Handler.readLoop],
+    [shell.Handler.pumpOutput] / [pumpPTYOutput], [Agent.sendFileDownload]:
+    the sender loop reads application bytes, then seals them with the
+    connection's [sessionKey] and writes them to the previous hop.  A
+    STREAM_CLOSE / STREAM_RESET / handler stop handled by another goroutine can
+    land between the two.  In the code the [sessionKey] field of
+    [ActiveConnection] / [ShellStream] / [fileTransferStream] is written once
+    when the stream is set up and nobody changes or zeroes it afterwards
+    ([KeepKey]); the loop does not look at the closed flag before sealing, so
+    the late bytes are still emitted - under the tunnel's key.  [WipeKey] is
+    the variant in which the close zeroes the key bytes the loop is about to
+    use (a zeroed key is still a valid ChaCha20-Poly1305 key, known to
+    everybody). *)
+
+Inductive sxop :=
+| SDown (b : bytes)    (* bytes read and sealed while the stream is open *)
+| SClose               (* closeConnection / HandleStreamClose / Stop ran *)
+| SLate (b : bytes).   (* bytes read before the close, sealed after it *)
+
+Inductive close_policy := KeepKey | WipeKey.
+
+Definition zero_key : key := 0.
+
+Record sxstate := { x_key : key; x_closed : bool; x_ctr : N; x_view : list seen }.
+
+Definition sx_emit (st : sxstate) (b : bytes) : sxstate :=
+  {| x_key := x_key st; x_closed := x_closed st; x_ctr := x_ctr st + 1;
+     x_view := x_view st ++ [(DDown, Whole (x_key st) (x_ctr st) b)] |}.
+
+Definition sx_step (pol : close_policy) (st : sxstate) (o : sxop) : sxstate :=
+  match o with
+  | SDown b => if x_closed st then st else sx_emit st b
+  | SClose =>
+      {| x_key := match pol with KeepKey => x_key st | WipeKey => zero_key end;
+         x_closed := true; x_ctr := x_ctr st; x_view := x_view st |}
+  | SLate b => if x_closed st then sx_emit st b else st
+  end.
+
+Definition sx_init (k : key) : sxstate := {| x_key := k; x_closed := false; x_ctr := 0; x_view := [] |}.
+
+Definition sx_run (pol : close_policy) (k : key) (ops : list sxop) : sxstate :=
+  fold_left (sx_step pol) ops (sx_init k).
+
 (** * Symbolic key agreement (Dolev-Yao) *)
 
 Inductive term :=
@@ -200,7 +245,7 @@ Definition transit_knowledge (a b r : N) (payloads : list bytes) : list term :=
 
 (** * Size-level oracle for the correspondence check *)
 
-Inductive kind := K_tcp | K_forward | K_shell | K_file | K_udp | K_icmp | K_udp_race.
+Inductive kind := K_tcp | K_forward | K_shell | K_file | K_udp | K_icmp | K_udp_race | K_stream_race | K_file_race.
 Inductive opk := O_up | O_down | O_close | O_late.
 
 (** [(up sealed, up clear, down sealed, down clear)] application bytes seen by
@@ -252,6 +297,20 @@ Definition sz_step (v : version) (st : szstate) (o : opk * N) : szstate :=
 Definition sz_dg_run (v : version) (ops : list (opk * N)) : totals :=
   z_tot (fold_left (sz_step v) ops {| z_iopen := true; z_eclosed := false; z_haskey := true; z_tot := (0, 0, 0, 0) |}).
 
+(** stream exits: [(closed, totals)] *)
+Definition sz_sx_step (pol : close_policy) (st : bool * totals) (o : opk * N) : bool * totals :=
+  let '(closed, t) := st in
+  let '(k, n) := o in
+  match k with
+  | O_down => if closed then st else (closed, add_ds t n)
+  | O_close => (true, t)
+  | O_late => if closed then (closed, match pol with KeepKey => add_ds t n | WipeKey => add_dc t n end) else st
+  | O_up => st
+  end.
+
+Definition sz_sx_run (pol : close_policy) (ops : list (opk * N)) : totals :=
+  snd (fold_left (sz_sx_step pol) ops (false, (0, 0, 0, 0))).
+
 Definition sum_of (which : opk -> bool) (ops : list (opk * N)) : N :=
   fold_right (fun o acc => if which (fst o) then snd o + acc else acc) 0 ops.
 
@@ -271,6 +330,9 @@ Definition c04_case_ok (c : c04_case) : bool :=
   (derived =? 2) && (tkeys =? 0) &&
   match k with
   | K_tcp | K_forward | K_udp | K_icmp | K_udp_race => totals_eqb (sz_dg_run Fixed ops) obs
+  | K_stream_race => totals_eqb (sz_sx_run KeepKey ops) obs
+  | K_file_race =>
+      let '(us, uc, ds, dc) := obs in (uc =? 0) && (dc =? 0)
   | K_shell | K_file =>
       (* framing, metadata and compression add sealed bytes; nothing in the clear *)
       let '(us, uc, ds, dc) := obs in
